@@ -335,6 +335,9 @@ def check_fourway(P, R, tu):
                         stepped = l is not None and l.get("k") == "UnaryOperator"
                         wrapf = _field(l["c"][0]) if stepped else _field(l)
                         k = const_of(c["c"][1])
+                        if stepped and l.get("postfix"):
+                            # the compared value is the one before the step: express the test in terms of the stepped value
+                            k += 1 if l.get("op") == "++" else -1
                         if want == 1 and stepped and c["op"] == ">=":          # ++X >= K -> X = 0
                             size, reset, expect = k, _assigned(y["c"][1], wrapf), 0
                         elif want == 1 and stepped and c["op"] == ">":         # ++X > K -> X = 1 (1-based)
@@ -349,6 +352,11 @@ def check_fourway(P, R, tu):
                     elif c.get("k") == "UnaryOperator" and c.get("op") == "!":      # !X-- -> X = K - 1
                         l = _u(c["c"][0])
                         if l is None or l.get("k") != "UnaryOperator" or l.get("op") != "--" or want != -1:
+                            continue
+                        if not l.get("postfix"):
+                            # !--X is `the stepped value is 0`: one too early for a field that counts from 0
+                            R.finding(rule, fn, site + " %s wrap of %s" % (what, _field(l["c"][0])), "the borrow test `%s` looks at the stepped "
+                                      "value; the field wraps when the value *before* the step is 0" % expr_text(c), y)
                             continue
                         wrapf = _field(l["c"][0])
                         reset = _assigned(y["c"][1], wrapf)
